@@ -23,6 +23,7 @@ import Ogen.GenOrderDriver
 import Ogen.AuthHeaderDriver
 import Ogen.UuidText_proof
 import Ogen.DocLines_proof
+import Ogen.DurationText_proof
 
 /-! Line-protocol driver over all executable models: `<model> <payload>` per line, one
     canonical output line per input line. Core-only (no Mathlib) so it links natively. -/
@@ -72,6 +73,8 @@ def dispatch (line : String) : String :=
     | "vfloat" => FloatV.floatLine payload
     | "jcodec" => JCodecDrv.codecLine payload
     | "jaccept" => JCodecDrv.acceptLine payload
+    | "durfmt" => DurT.fmtLine payload
+    | "durval" => DurT.valLine payload
     | "docsplit" => DocLines.splitLineLine payload
     | "uuidfmt" => UuidT.fmtLine payload
     | "uuidparse" => UuidT.parseLine payload
